@@ -50,13 +50,14 @@ class Ctx:
     """One execution path."""
     cur = None
     branch_timeout_ms = 4000
+    solver_factory = staticmethod(z3.Solver)
 
     def __init__(self, decisions=(), ieee_div=False):
         self.decisions = list(decisions)
         self.pos = 0
         self.pc = []
         self.pending = []
-        self.solver = z3.Solver()
+        self.solver = self.solver_factory()
         self.solver.set('timeout', self.branch_timeout_ms)
         self.ieee_div = ieee_div
         self.defined = []       # definedness side conditions (z3 Bool) collected on this path
@@ -96,12 +97,25 @@ class Ctx:
             return True
         return r == z3.sat
 
+    relax = None     # optional predicate: conditions for which both branches are explored and
+                     # nothing is recorded (sound weakening of the path condition)
+
     def branch(self, cond):
         cond = z3.simplify(cond)
         if z3.is_true(cond):
             return True
         if z3.is_false(cond):
             return False
+        if Ctx.relax is not None and Ctx.relax(cond):
+            if self.pos < len(self.decisions):
+                d = self.decisions[self.pos]
+            else:
+                d = True
+                self.pending.append(self.decisions[:self.pos] + [False])
+                self.decisions.append(d)
+            self.pos += 1
+            self.notes['relaxed'] = self.notes.get('relaxed', 0) + 1
+            return d
         if self.pos < len(self.decisions):
             d = self.decisions[self.pos]
         else:
@@ -196,6 +210,13 @@ class SymBool:
 
     def logical_not(self):
         return SymBool(z3.Not(self.t))
+
+    # numpy scalar API used as `(cond).all()` on 0-d results
+    def all(self):
+        return self
+
+    def any(self):
+        return self
 
     # arithmetic on booleans (e.g. `1 - terminate`, `-2 * (x > 0.5) + 1`)
     def _r(self):
